@@ -71,3 +71,7 @@ def _r02_4(res, P, cfgname):
             else:
                 res.ok("R02.4", cfgname, key)
     res.floor("R02.4", cfgname, n, 4, "division kernel calls in div_const")
+
+
+LEVEL = LEVEL + ' Also (R02.4) the ConstDivisor path enters the long-division kernel whenever the dividend is at least as long as the divisor, and (R19.2, shared) no division step sits inside a debug assertion.'
+TECHNIQUE = 'static analysis of MIR: finite sign/convention tables (FDT) over all ownership forms, dispatcher-estimator agreement by abstract evaluation, must-pass-through zero-divisor guards, debug-region effect analysis'
